@@ -18,6 +18,12 @@ import (
 // serial replay of the commits observed before the crash (for a log cut inside the bytes of a commit: with or
 // without that commit), pass the raw scan and accept writes with fresh positions and internal ids.
 
+type ccBackup struct {
+	dir     string
+	commits int // commits observed when the backup run started
+	idx     int
+}
+
 type ccEvent struct {
 	wal     int64
 	commits int
@@ -129,6 +135,37 @@ func genC04c(g *G, sc *Scenario, tier string) {
 	sc.Knobs["preemptPct"] = int64(g.PickInt([]int{10, 20, 35, 50, 70}))
 }
 
+// genC20c: the writers of C04c with a task that runs native backups (sometimes through a new manager, as after a
+// restart) while they are in flight; no process death.
+func genC20c(g *G, sc *Scenario, tier string) {
+	genC04c(g, sc, tier)
+	var keep []Fault
+	for _, f := range sc.Faults {
+		if f.Kind != "crash" {
+			keep = append(keep, f)
+		}
+	}
+	sc.Faults, sc.Cuts = keep, nil
+	var ops []Op
+	for k := g.Range(1, 3); k > 0; k-- {
+		op := Op{K: "backup"}
+		if len(ops) > 0 && g.P(0.3) {
+			op.N = 1
+		}
+		if g.P(0.3) {
+			op.Sleep = int64(g.PickInt([]int{1, 50, 3000}))
+		}
+		ops = append(ops, op)
+	}
+	sc.Tasks = append(sc.Tasks, ops)
+	if g.P(0.4) {
+		// a writer that also triggers a backup between two of its writes
+		ti := g.Intn(len(sc.Tasks) - 1)
+		pos := g.Intn(len(sc.Tasks[ti]) + 1)
+		sc.Tasks[ti] = append(sc.Tasks[ti][:pos:pos], append([]Op{{K: "backup"}}, sc.Tasks[ti][pos:]...)...)
+	}
+}
+
 func (g *G) PickFloat(l []float64) float64 { return l[g.Intn(len(l))] }
 
 var ccPoints = []string{
@@ -225,6 +262,17 @@ func RunConcCrashScenario(sc *Scenario) (vd *Verdict) {
 		}
 	}
 	injectedFor := map[*Task]bool{}
+	var backups []ccBackup
+	var backupViolation *Violation
+	backupRunning := false
+	defer func() {
+		for _, b := range backups {
+			os.RemoveAll(b.dir)
+		}
+		if r.backupDir != "" {
+			os.RemoveAll(r.backupDir)
+		}
+	}()
 	hooks.onFault = func(owner any, name string, hit int64) error {
 		if armed[fmt.Sprintf("fault:%s#%d", name, hit)] == "error" {
 			r.Stats["fault_injected_error"]++
@@ -265,6 +313,33 @@ func RunConcCrashScenario(sc *Scenario) (vd *Verdict) {
 						st = server.NewContextualStore(h.Store)
 					}
 					co.err = st.ExecuteTransaction(tx)
+				case "backup":
+					// a backup run racing the writers: whatever is parked between its id commit and its data commit stays parked
+					if backupRunning {
+						// the manager skips a run that overlaps another one: no completed run, nothing to judge
+						r.Stats["backup_runs_skipped_overlap"]++
+						if r.backupMgr != nil {
+							r.backupMgr.Run()
+						}
+						break
+					}
+					if op.N == 1 {
+						r.backupMgr = nil // as after a restart of the hub: a new manager reloads its cursor
+					}
+					at := commits
+					backupRunning = true
+					v := r.runBackup()
+					backupRunning = false
+					if v != nil {
+						if backupViolation == nil {
+							backupViolation = v
+						}
+					} else {
+						d := NewDir("bkcopy")
+						if err := CopyDirSparse(r.backupDir, d); err == nil {
+							backups = append(backups, ccBackup{dir: d, commits: at, idx: len(backups)})
+						}
+					}
 				}
 				co.injected = injectedFor[tk]
 				co.done = true
@@ -302,6 +377,9 @@ func RunConcCrashScenario(sc *Scenario) (vd *Verdict) {
 	}
 	for ti, cos := range all {
 		for _, co := range cos {
+			if co.op.K == "backup" && co.done {
+				continue
+			}
 			switch {
 			case !co.done:
 				fail(viol(sc.Property, "hang", "unfinished-task", "task %d op %d (%s) never finished", ti, co.idx, co.op.K))
@@ -349,6 +427,35 @@ func RunConcCrashScenario(sc *Scenario) (vd *Verdict) {
 	if _, v := RawConsistency(h, sc.Property); v != nil {
 		v.Signature = "no-crash:" + v.Signature
 		fail(v)
+		return
+	}
+	if sc.Property == "C20" {
+		if backupViolation != nil {
+			fail(backupViolation)
+			return
+		}
+		// one more run at quiescence: together with the earlier runs it must hold everything
+		if v := r.runBackup(); v != nil {
+			fail(v)
+			return
+		}
+		if d := NewDir("bkcopy"); CopyDirSparse(r.backupDir, d) == nil {
+			backups = append(backups, ccBackup{dir: d, commits: commits, idx: len(backups)})
+		}
+		live := r.backupDir
+		for _, b := range backups {
+			r.backupDir = b.dir
+			r.atBackup = r.models[b.commits]
+			v := r.restoreCheck()
+			r.backupDir = live
+			if v != nil {
+				v.Signature = "concurrent:" + v.Signature
+				v.Message = fmt.Sprintf("backup run %d of %d started after %d of %d commits, with writers in flight: %s", b.idx+1, len(backups), b.commits, commits, v.Message)
+				fail(v)
+				return
+			}
+		}
+		r.Stats["crash_states_verified"] += int64(len(backups))
 		return
 	}
 	// log cuts
